@@ -134,6 +134,24 @@ def clamp_facts():
     return ("true" if a else "false", "true" if b else "false", "true" if c else "false")
 
 
+def sofar_writers():
+    """names of the methods of class Channel that assign self.in_window_sofar (plain or augmented assignment)"""
+    import ast
+    import inspect
+    import textwrap
+    from paramiko.channel import Channel
+    cls = ast.parse(textwrap.dedent(inspect.getsource(Channel))).body[0]
+    out = []
+    for fn in cls.body:
+        if isinstance(fn, ast.FunctionDef):
+            for n in ast.walk(fn):
+                targets = n.targets if isinstance(n, ast.Assign) else [n.target] if isinstance(n, ast.AugAssign) else []
+                if any(isinstance(t, ast.Attribute) and t.attr == "in_window_sofar" for t in targets) \
+                        and fn.name not in out:
+                    out.append(fn.name)
+    return out
+
+
 class WireMonitor:
     """the property, evaluated on what the real code wrote (independent of the model)"""
 
@@ -376,6 +394,60 @@ def compare_open_path(ctx, batches):
                 return
 
 
+def combine_switch(ctx, rng):
+    """Receiver side with set_combine_stderr: stderr data is buffered while combine is off, the application switches
+    combine on (the buffered bytes move into the stdout buffer), reads everything, switches back, more data, reads.
+    Oracle (wire monitor): Σ WINDOW_ADJUST written ≤ bytes handed to the application by recv / recv_stderr — moving
+    bytes between internal buffers is not consumption.  (Oracle only: the model has no combine switch.)"""
+    for n_err, n_out, second in ((2000, 0, 500), (4000, 100, 0), (3276, 1, 3277), (1, 5000, 2000),
+                                 (rng.choice([1500, 3000]), rng.choice([0, 1700]), rng.choice([0, 4000]))):
+        rig = lib_chan.Rig(32768, 32768, 32768, 2)
+        mon = WireMonitor(32768, 32768)
+        steps = []
+
+        def do(op):
+            rig.do(op)
+            steps.append(op)
+            lt = rig.threads[0]
+            if op.startswith("recv") and lt.state == "gotbytes":
+                mon.consumed += lt.info
+            mon.observe(rig.wire)
+
+        def read_all():
+            for err in (0, 1):
+                for _ in range(20):
+                    if len(rig.chan.in_stderr_buffer if err else rig.chan.in_buffer) == 0:
+                        break
+                    do("recv 0 %d %d" % (rng.choice([700, 5000, 100000]), err))
+                    if rig.threads[0].state == "gotbytes":
+                        do("check 0")
+                    if rig.threads[0].state == "hold":
+                        do("emit 0")
+
+        try:
+            do("feedx 1 1 %d" % n_err)
+            if n_out:
+                do("feed %d" % n_out)
+            rig.chan.set_combine_stderr(True)
+            steps.append("set_combine_stderr(True)")
+            read_all()
+            if second:
+                do("feedx 1 1 %d" % second)          # arrives on stdout now
+                rig.chan.set_combine_stderr(False)
+                steps.append("set_combine_stderr(False)")
+                do("feedx 1 1 %d" % second)
+                read_all()
+        finally:
+            rig.teardown()
+        case = {"scenario": "stderr buffered, set_combine_stderr(True), read everything", "stderr_bytes": n_err,
+                "stdout_bytes": n_out, "later": second, "schedule": steps, "wire": rig.wire[:20],
+                "bytes_returned_by_recv": mon.consumed, "window_granted_back": mon.acked}
+        ctx.case(("combine", n_err, n_out, second), True)
+        ctx.dist("combine-switch-scenarios")
+        if mon.problem:
+            ctx.fail(mon.problem[0] + ":set_combine_stderr", case, mon.problem[1])
+
+
 def free_running(ctx, rng):
     """several real writer threads against a real condition variable; a peer thread hands out window"""
     import paramiko.channel as chmod
@@ -509,8 +581,10 @@ def run(ctx):
         "/-- Transport._parse_channel_open hands chan._set_remote_channel the three values parsed from the peer's\n"
         "    CHANNEL_OPEN (names assigned exactly once, by m.get_int()) -/\n"
         "def peer_open_passes_parsed_values : Bool := %s\n"
+        "/-- the methods of class Channel that assign `self.in_window_sofar` -/\n"
+        "def sofar_writers : List String := [%s]\n"
         "end PV.Generated.C19\n" % ((common.MIN_PACKET_SIZE, common.MAX_WINDOW_SIZE, common.MIN_WINDOW_SIZE)
-                                      + clamp_facts())))
+                                      + clamp_facts() + (", ".join('"%s"' % w for w in sofar_writers()),))))
     import paramiko.channel as chmod
     from pv import lib_chanlock
     sites, notifies = lib_chanlock.channel_tables(chmod.Channel)
@@ -541,6 +615,7 @@ def run(ctx):
             ctx.fail("unexpected-exception:" + e.split(":")[1], case, e)
         batches.append((case, reqs, impl))
     adjust_vs_send(ctx, rng, batches)
+    combine_switch(ctx, rng)
     open_batches = []
     through_the_open_path(ctx, rng, open_batches)
     compare(ctx, "C19", batches)
